@@ -276,3 +276,21 @@ def well_typed_controls():
         for t in ("Int", "ByteArray", "Option<Int>"):
             out.append((T + "\n" + tmpl.format(T1=t, T2=t, v1=VALUES[t]), "%s at %s" % (name, t)))
     return out
+
+
+# ---------------------------------------------------------------- constants beyond a machine word (C02: compared stage by stage, no specification value)
+def big_constant_module():
+    """Data constants holding integers around +-2^63 / +-2^64 and beyond, cast back to Int and used; byte strings of 64 / 65 bytes"""
+    ns = []
+    for k in (62, 63, 64, 65, 70, 128):
+        for d in (-1, 0, 1):
+            ns += [2 ** k + d, -(2 ** k) + d]
+    fns, out = [], []
+    for i, n in enumerate(sorted(set(ns))):
+        name = "k%d" % i
+        fns.append(name)
+        out.append("pub fn %s() -> Data {\n  let d: Data = %d\n  expect n: Int = d\n  let r: Int = n + 1\n  let as_data: Data = r\n  as_data\n}\n" % (name, n))
+        name = "c%d" % i
+        fns.append(name)
+        out.append("const big_%d: Data = %d\n\npub fn %s() -> Data {\n  expect n: Int = big_%d\n  let r: Bool = n %% 7 == %d\n  let as_data: Data = r\n  as_data\n}\n" % (i, n, name, i, n % 7))
+    return {"src": "\n".join(out), "fns": fns}
